@@ -196,6 +196,44 @@ def ofDag : Dag → Trie
   | .val j k l rest => val j k (some j) false l (ofDag rest)
   | .sub j c rest => sub j false (ofDag c) (ofDag rest)
 
+/-! Fault injection (tie only, no theorem): the DAG service refuses the block of one unloaded
+sub-shard, identified by its slot-index path.  Every operation that has to load it fails. -/
+
+/-- slot-index paths of all sub-shards, DFS pre-order (the order of the serialised links) -/
+def subPaths : Trie → List (List Nat)
+  | nil => []
+  | val _ _ _ _ _ rest => subPaths rest
+  | sub j _ c rest => [j] :: ((subPaths c).map (j :: ·) ++ subPaths rest)
+
+/-- the sub-shard at the path exists and is still an unloaded link -/
+def unloadedAt : Trie → List Nat → Bool
+  | _, [] => false
+  | nil, _ => false
+  | val _ _ _ _ _ rest, p => unloadedAt rest p
+  | sub j ld c rest, i :: p =>
+    if j = i then (match p with | [] => !ld | _ => unloadedAt c p) else unloadedAt rest (i :: p)
+
+/-- `childer.get` along the path up to (not including) its last element: the ancestors get loaded -/
+def loadTo : Trie → List Nat → Trie
+  | t, [] => t
+  | nil, _ => nil
+  | val j k p ld l rest, q => val j k p ld l (loadTo rest q)
+  | sub j ld c rest, i :: p =>
+    if j = i then (match p with | [] => sub j ld c rest | _ => sub j true (loadTo c p) rest)
+    else sub j ld c (loadTo rest (i :: p))
+
+/-- `ForEachLink` aborted when it has to load the sub-shard at the path: everything before it in
+walk order is loaded and stripped, its ancestors are loaded, nothing after it is touched -/
+def stripTo : Trie → List Nat → Trie
+  | t, [] => t
+  | nil, _ => nil
+  | val j k p ld l rest, i :: q =>
+    if j < i then val j k none true l (stripTo rest (i :: q)) else val j k p ld l rest
+  | sub j ld c rest, i :: q =>
+    if j < i then sub j true (stripAll c) (stripTo rest (i :: q))
+    else if j = i then (match q with | [] => sub j ld c rest | _ => sub j true (stripTo c q) rest)
+    else sub j ld c rest
+
 /-- entries with the stored-name shape (what `EnumLinksAsync` sees is the key; what `Find` returns is this) -/
 def sents : Trie → List (Name × SLnk)
   | nil => []
